@@ -1881,6 +1881,15 @@ func (a *Analysis) derefsIn(n ast.Node) *Formula {
 		if bt.K == 'v' && f.volatile[bt.Obj] {
 			return
 		}
+		// only what stands for a caller's value inside an expanded helper (its parameters and locals):
+		// non-nil facts about the function's own parameters on every path would only make paths differ
+		root := bt
+		for root.K != 'v' && len(root.A) > 0 {
+			root = root.A[0]
+		}
+		if root.K != 'v' || root.Obj == nil || !f.inlVars[root.Obj] {
+			return
+		}
 		seen[bt.key] = true
 		out = append(out, FNotNil(bt))
 	}
